@@ -249,6 +249,9 @@ func checkSet(defs []*Def, src string) (intersecting bool, realConflict bool, er
 			dfa, termMap, derr = sp.DFA()
 		}
 	}); g != nil {
+		if rec.QueuePanic(g) {
+			return false, false, nil // listed dependency finding, identified by its call site
+		}
 		return false, false, fmt.Errorf("%v\nspecification:\n%s", g, src)
 	}
 	if perr != nil {
